@@ -19,7 +19,7 @@ fn angle_defined(p: &Params, pr: Prayer) -> Option<f64> {
 }
 
 pub fn judge(ctx: &Ctx, l: &mut Local, p: &Params, site: Site, date: NaiveDate) {
-    let r = prayer_times_dt(p, site.loc(), date, None);
+    let r = pt(p, site.loc(), date, None);
     l.evals += 1;
     let case = || PtCase::new(p, site, date);
     let Some(sd) = secs(&r, Prayer::Dhuhr) else { return };
@@ -75,7 +75,7 @@ pub fn judge_chain(ctx: &Ctx, l: &mut Local, site: Site, date: NaiveDate, full_p
     for a in 9..=21 {
         let a = a as f64;
         let p = custom(a, a, 1.5);
-        let r = prayer_times_dt(&p, site.loc(), date, None);
+        let r = pt(&p, site.loc(), date, None);
         l.evals += 1;
         fajr.push((a, off(&r, Prayer::Fajr)));
         isha.push((a, off(&r, Prayer::Isha)));
@@ -83,7 +83,7 @@ pub fn judge_chain(ctx: &Ctx, l: &mut Local, site: Site, date: NaiveDate, full_p
         let mut prev: Option<(f64, i64)> = None;
         for ia in IMSAAK_ANGLES {
             let p2 = custom(a, 30.0 - a, ia);
-            let r2 = prayer_times_dt(&p2, site.loc(), date, None);
+            let r2 = pt(&p2, site.loc(), date, None);
             l.evals += 1;
             if off(&r2, Prayer::Fajr) != off(&r, Prayer::Fajr) {
                 ctx.violation("fajr_depends_only_on_fajr_angle", &format!("{}_{}_{}", site.key(), date, a), PtCase::new(&p2, site, date).to_value(), json!({"with_isha_eq_fajr": fmt_r(&r), "with_other_isha_and_imsaak_angle": fmt_r(&r2)}));
@@ -109,9 +109,9 @@ pub fn judge_chain(ctx: &Ctx, l: &mut Local, site: Site, date: NaiveDate, full_p
                     continue;
                 }
                 let p3 = custom(a, b, 1.5);
-                let r3 = prayer_times_dt(&p3, site.loc(), date, None);
+                let r3 = pt(&p3, site.loc(), date, None);
                 l.evals += 1;
-                let rb = prayer_times_dt(&custom(b, b, 1.5), site.loc(), date, None);
+                let rb = pt(&custom(b, b, 1.5), site.loc(), date, None);
                 if off(&r3, Prayer::Fajr) != off(&r, Prayer::Fajr) || off(&r3, Prayer::Isha) != off(&rb, Prayer::Isha) {
                     ctx.violation("angle_pair_independence", &format!("{}_{}_{}_{}", site.key(), date, a, b), PtCase::new(&p3, site, date).to_value(), json!({"pair": fmt_r(&r3)}));
                 }
